@@ -1014,6 +1014,13 @@ func (env *SpecEnv) evalCall(n *Node) Val {
 		bc := ex.comp(env.cur, "envlog|bytes", sArr(sInt, sArr(sInt, sInt)))
 		oc := ex.comp(env.cur, "envlog|boff", sArr(sInt, sInt))
 		return mathInt(mkSelect(mkSelect(bc, i.L[0]), mkAdd(mkSelect(oc, i.L[0]), k.L[0])))
+	case "envrbyte":
+		// byte k of the []byte field of the first element returned by entry i, as it was when the call returned
+		i := env.eval(args[0])
+		k := env.eval(args[1])
+		bc := ex.comp(env.cur, "envlog|rbytes", sArr(sInt, sArr(sInt, sInt)))
+		oc := ex.comp(env.cur, "envlog|rboff", sArr(sInt, sInt))
+		return mathInt(mkSelect(mkSelect(bc, i.L[0]), mkAdd(mkSelect(oc, i.L[0]), k.L[0])))
 	case "envle32":
 		i := env.eval(args[0])
 		k := env.eval(args[1])
@@ -1367,7 +1374,8 @@ func (ex *Exec) evalModifies(env *SpecEnv, n *Node) []modItem {
 			out = append(out, modItem{comp: compAlloc, ref: "", srt: sArr(sInt, sBool)})
 		case "envlog":
 			out = append(out, modItem{comp: "envlog|len", ref: "", srt: sInt}, modItem{comp: "envlog|kind", ref: "", srt: sArr(sInt, sInt)}, modItem{comp: "envlog|arg", ref: "", srt: sArr(sInt, sArr(sInt, sInt))},
-				modItem{comp: "envlog|bytes", ref: "", srt: sArr(sInt, sArr(sInt, sInt))}, modItem{comp: "envlog|boff", ref: "", srt: sArr(sInt, sInt)})
+				modItem{comp: "envlog|bytes", ref: "", srt: sArr(sInt, sArr(sInt, sInt))}, modItem{comp: "envlog|boff", ref: "", srt: sArr(sInt, sInt)},
+				modItem{comp: "envlog|rbytes", ref: "", srt: sArr(sInt, sArr(sInt, sInt))}, modItem{comp: "envlog|rboff", ref: "", srt: sArr(sInt, sInt)})
 		case "clock":
 			out = append(out, modItem{comp: "clock", ref: "", srt: sInt})
 		case "envbytes":
